@@ -14,7 +14,7 @@ CONSTANTS
   SeqAlphaB = {"A", "C", "-"}
   SeqLensB = {3, 4}
   HomoLens = {9, 10, 12}
-  PairAlpha = {"a", " ", ">", "|", "#", "%"}
+  PairAlpha = {"a", " ", ">", "|", "%"}
   PairLen = 2
 INVARIANT TypeOK
 INVARIANT RoundTripOnClean
